@@ -56,7 +56,7 @@ def c27(tier):
   for i, r in enumerate(sysr):
     r["tid"] = n + i
   recs += sysr
-  v, t = trace_validate("TSATrace", [{"tid": r["tid"], "kind": "c27", "progs": [r["progs_d"][k] for k in sorted(r["progs_d"])], "init": [1, 2],
+  v, t = trace_validate("TSATrace", [{"tid": r["tid"], "kind": "c27", "progs": [r["progs_d"][k] for k in sorted(r["progs_d"])], "init": [1, 2, 3],
                                       "final": r["final"], "errors": r["errors"], "outcome": r["outcome"], "done": r["done"],
                                       "lock_count": r["lock_count"]} for r in recs])
   for r in recs:
@@ -111,7 +111,8 @@ def _c29_work(args):
 
 def c29(tier):
   run = common.Run("C29", tier, "model_checking")
-  run.assumptions += ["two classes with thread-safe attributes (one attribute name in common), up to 8 operations per history"]
+  run.assumptions += ["three classes with thread-safe attributes (one attribute name in common; the objects of one class compare and hash equal), "
+                      "up to 8 operations per history: new, assign, read, `a.attr += b.attr2`"]
   n = 150 if tier == "quick" else 3000
   with mp.get_context("fork").Pool(16) as pool:
     hist = [h for part in pool.map(_c29_work, [(common.seed() * 1000 + k, n) for k in range(16)]) for h in part]
